@@ -107,12 +107,12 @@ func Decode{{ .Method.VarName }}Response(ctx context.Context, v any, hdr, trlr m
 				err = goa.MergeErrors(err, goa.MissingFieldError({{ printf "%q" .Metadata.Name }}, "metadata"))
 			} else {
 				{{ .Metadata.VarName }}Raw = vals[0]
-				{{ template "type_conversion" .Metadata }}
+				{{ template "type_conversion" (unaliased .Metadata) }}
 			}
 		{{- else }}
 			if vals := {{ .VarName }}.Get({{ printf "%q" .Metadata.Name }}); len(vals) > 0 {
 				{{ .Metadata.VarName }}Raw = vals[0]
-				{{ template "type_conversion" .Metadata }}
+				{{ template "type_conversion" (unaliased .Metadata) }}
 			}
 		{{- end }}
 	{{- end }}
